@@ -372,10 +372,10 @@ func (mab *memoryAddrBook) ConsumePeerRecord(recordEnvelope *record.Envelope, tt
 		if prevRec := prevSignedAddrs(lastState); len(prevRec) > 0 {
 			newAddrSet := make(map[string]struct{}, len(rec.Addrs))
 			for _, a := range rec.Addrs {
-				newAddrSet[string(a.Bytes())] = struct{}{}
+				newAddrSet[signedAddrKey(a, rec.PeerID)] = struct{}{}
 			}
 			for _, a := range prevRec {
-				key := string(a.Bytes())
+				key := signedAddrKey(a, rec.PeerID)
 				if _, still := newAddrSet[key]; still {
 					continue
 				}
@@ -394,6 +394,16 @@ func (mab *memoryAddrBook) ConsumePeerRecord(recordEnvelope *record.Envelope, tt
 	}
 	mab.addAddrsUnlocked(rec.PeerID, rec.Addrs, ttl)
 	return true, nil
+}
+
+// signedAddrKey returns the key under which an addr listed in p's signed record
+// is stored: addrs are stored without their /p2p/<p> suffix, so a record that
+// lists them with the suffix must be compared (and looked up) without it.
+func signedAddrKey(a ma.Multiaddr, p peer.ID) string {
+	if t, id := peer.SplitAddr(a); t != nil && id == p {
+		return string(t.Bytes())
+	}
+	return string(a.Bytes())
 }
 
 // prevSignedAddrs returns the addrs from the stored signed peer record, or
